@@ -13,7 +13,7 @@ BASE = {"type": "opm", "kind": "orbit", "scale": "UTC", "frame": "EME2000", "cov
         "tdmpath": "one-way", "tdmdoppler": False}
 DIMS = {"type": ["opm", "oem", "omm", "tdm"], "kind": ["orbit", "statevector"], "scale": ["UTC", "TAI", "TT", "GPS", "UT1", "TDB"],
         "frame": ["EME2000", "ITRF", "TOD", "GCRF", "MOD", "TEME", "CIRF", "PEF", "TIRF", "G50"],
-        "cov": ["none", "same", "QSW", "TNW", "other"], "nman": [0, 1, 2, 3], "mankind": ["impulsive", "continuous", "mixed"],
+        "cov": ["none", "same", "QSW", "TNW", "other", "mixed"], "nman": [0, 1, 2, 3], "mankind": ["impulsive", "continuous", "mixed"],
         "manframe": ["none", "QSW", "TNW"], "comment": [False, True], "nud": [0, 1, 2], "npoints": [1, 2, 3, 9],
         "ncov": ["all", "one"], "nephem": [1, 2], "interp": ["linear", "lagrange2", "lagrange5", "lagrange8"],
         "tdmpath": ["one-way", "two-way"], "tdmdoppler": [False, True]}
@@ -34,9 +34,11 @@ def run(ctx):
                 "frame, covariance and its frame, number/kind/frame/comment of maneuvers, user-defined fields, ephemeris points, covariances, "
                 "number of ephemerides, interpolation, TDM path and measurement mix) x 8 encoding paths (first encoding, its source, second "
                 "encoding); distinct/non-trivial = distinct (type, encodings, covariance, maneuvers, scale, frame) classes replayed")
-    base = RawTla("[" + ", ".join(f"{k} |-> {tl(v)}" for k, v in BASE.items()) + "]")
+    bases = [dict(BASE), dict(BASE, type="oem", npoints=3, cov="same"), dict(BASE, type="oem", npoints=3, nephem=2),
+             dict(BASE, type="tdm", tdmpath="two-way"), dict(BASE, type="omm", frame="TEME"), dict(BASE, nman=2, mankind="mixed")]
+    base = RawTla("{" + ", ".join("[" + ", ".join(f"{k} |-> {tl(v)}" for k, v in b.items()) + "]" for b in bases) + "}")
     dims = RawTla("(" + " @@ ".join(f'"{k}" :> {{{", ".join(tl(x) for x in v)}}}' for k, v in DIMS.items()) + ")")
-    name, mc, cl = tlcmod.wrap("Ccsds", {"Base": base, "Dims": dims})
+    name, mc, cl = tlcmod.wrap("Ccsds", {"Bases": base, "Dims": dims})
     cfg = "SPECIFICATION Spec\n" + cl + "PROPERTY ContentPreserved\nCONSTRAINT Sensible\nCHECK_DEADLOCK FALSE\n"
     r = ctx.tlc(name, label="CCSDS configuration pairs x paths", cfg_text=cfg, extra_files={name + ".tla": mc}, workers=16, dump=True, timeout=3000)
     seen = {}
@@ -47,7 +49,7 @@ def run(ctx):
         seen[key] = {"cfg": dict(s["cfg"]), "path": dict(s["path"])}
     cases = list(seen.values())
     ctx.extra["configurations_x_paths"] = len(cases)
-    cap = 40000 if thorough else 12000
+    cap = 60000 if thorough else 9000
     if len(cases) > cap:
         # keep every configuration class at least once for one path, then fill up
         rnd.shuffle(cases)
